@@ -223,6 +223,48 @@ def check_case(case):
                 if n <= 10:
                     # inverse from a constructor output (non-initial state)
                     back = inv_rod(r, mod, np.asarray(M, float), key)
+        # argument kinds: whole-number Rodrigues vectors as int list / tuple / int array / float32; whole-number angles as int / numpy ints
+        for iv in ((1, 2, 3), (0, 0, 2), (1, 0, 0), (-1, 1, 0), (0, 0, 0), (2, -3, 1)):
+            R = rod_active(np.array(iv, float)).T
+            for kn, arg in (("list-int", list(iv)), ("tuple-int", tuple(iv)), ("int64", np.array(iv, dtype=np.int64)), ("int32", np.array(iv, dtype=np.int32)),
+                            ("float32", np.array(iv, dtype=np.float32))):
+                key = "%s:rod_to_u(%s as %s)" % (mname, iv, kn)
+                M = mod.rod_to_u(arg)
+                if proper(r, M, key, tol=1e-6 if kn == "float32" else 1e-12):
+                    r.check("ctor-argkind", float(np.max(np.abs(np.asarray(M, float) - R))), 1e-6 if kn == "float32" else 1e-12, key, "rod_to_u for a %s vector" % kn, R, M)
+        for ia in ((0, 1, 2), (3, 0, 6), (6, 3, 1), (2, 2, 2)):
+            for kn, conv in (("int", int), ("np.int64", np.int64), ("np.int32", np.int32), ("np.float32", np.float32)):
+                a3 = tuple(conv(x) for x in ia)
+                af = tuple(float(x) for x in a3)
+                for fname, ref in (("euler_to_u", euler_ref(*af)), ("form_omega_mat_general", Rx(af[1]) @ Ry(af[2]) @ Rz(af[0])), ("detect_tilt", Rx(af[0]) @ Ry(af[1]) @ Rz(af[2])),
+                                   ("quart_to_omega", None)):
+                    if fname == "quart_to_omega":
+                        ref = (Rx(af[1]) @ Ry(af[2])) @ Rz(math.radians(af[0])) @ (Rx(af[1]) @ Ry(af[2])).T
+                    key = "%s:%s%r as %s" % (mname, fname, ia, kn)
+                    M = getattr(mod, fname)(*a3)
+                    tolk = 1e-6 if kn == "np.float32" else 1e-12
+                    if proper(r, M, key, tol=tolk):
+                        r.check("ctor-argkind", float(np.max(np.abs(np.asarray(M, float) - ref))), tolk, key, "%s for %s arguments" % (fname, kn), ref, M)
+            key = "%s:form_omega_mat(%r as int)" % (mname, ia[0])
+            M = mod.form_omega_mat(int(ia[0]))
+            r.check("ctor-argkind", float(np.max(np.abs(np.asarray(M, float) - Rz(float(ia[0]))))), 1e-12, key, "form_omega_mat for an int argument")
+        # inverses: the same matrix as nested list, Fortran-ordered array, transposed view, float32 array
+        for q, R in alph.quat_rots(1)[5:12]:
+            e_ref = mod.u_to_euler(R)
+            for kn, arg in (("nested list", R.tolist()), ("fortran", np.asfortranarray(R)), ("transposed view", np.ascontiguousarray(R.T).T), ("float32", R.astype(np.float32))):
+                key = "%s:U=quat%s as %s" % (mname, q, kn)
+                try:
+                    e = [float(x) for x in mod.u_to_euler(arg)]
+                    d = float(np.max(np.abs(euler_ref(*e) - R)))
+                except Exception as ex:
+                    d = float("inf")
+                r.check("euler-argkind", d, 1e-6, key + ":u_to_euler", "u_to_euler for a %s matrix" % kn)
+                if abs(1 + np.trace(R)) > 1e-3:
+                    try:
+                        d = float(np.max(np.abs(np.asarray(mod.u_to_rod(arg), float) - rod_from_u(R)))) / (1 + float(np.max(np.abs(rod_from_u(R)))))
+                    except Exception:
+                        d = float("inf")
+                    r.check("rod-argkind", d, 1e-5 if kn == "float32" else 1e-9, key + ":u_to_rod", "u_to_rod for a %s matrix" % kn)
         r.states = len(dirs) * 6
     elif k == "quat":
         Q = alph.quat_rots(case["N"])[case["lo"]:case["hi"]]
